@@ -46,9 +46,11 @@ def trace_confirm(C, h, res, path, art):
     try:
         j = json.load(open(out_json))
         for o in j:
-            if "result" in o:
-                for r in o["result"]:
-                    if r.get("status") == "FAILURE" and (not props or r.get("property") in props):
+            # --stop-on-fail prints the failed property as a top-level object, without it they sit under "result"
+            rs = o["result"] if "result" in o else ([o] if "property" in o and "status" in o else None)
+            if rs is not None:
+                for r in rs:
+                    if str(r.get("status")).upper() in ("FAILURE", "FAILED") and (not props or r.get("property") in props):
                         verdict = "FAILED"
                         for st in r.get("trace", []):
                             if st.get("stepType") == "assignment" and not st.get("hidden"):
@@ -56,12 +58,15 @@ def trace_confirm(C, h, res, path, art):
                                 if "/verif/harness" in sl.get("file", "") or "verif_harness" in sl.get("function", ""):
                                     v = st.get("value", {})
                                     assigns.append({"lhs": st.get("lhs"), "value": v.get("data", v.get("name")), "line": sl.get("line")})
-                if verdict != "FAILED" and any(r.get("status") == "SUCCESS" for r in o["result"]):
+                if verdict != "FAILED" and any(str(r.get("status")).upper() == "SUCCESS" for r in rs):
                     verdict = "SUCCESSFUL"
+            if o.get("cProverStatus") == "success" and verdict != "FAILED":
+                verdict = "SUCCESSFUL"
     except Exception as e:  # noqa
         verdict = f"unknown ({e})"
     try:
-        os.remove(out_json)  # can be hundreds of MB
+        if verdict == "FAILED" or os.path.getsize(out_json) > (64 << 20):
+            os.remove(out_json)  # can be hundreds of MB; kept (when small) if the verdict needs triage
     except OSError:
         pass
     art["replay_mode"] = "trace"
@@ -85,7 +90,7 @@ def make_replay(C, prop, h, res):
            "crate": h["crate"], "failed_checks": res["failed"], "repo_head": C.git_head(C.REPO),
            "how_to_run": f"cd /verif && bin/check --replay {path}", "concrete_vals": None}
     detail = ""
-    if (h.get("replay", "native") == "trace" or res.get("progress_violation")) and h.get("mem", 3) >= 8 \
+    if (h.get("replay", "native") == "trace" or res.get("progress_violation")) and h.get("mem", 3) >= int(os.environ.get("VERIF_TRACE_CONFIRM_MIN_MEM", "8")) \
             and res.get("goto") and os.path.exists(res["goto"]):
         return trace_confirm(C, h, res, path, art)
     with C.Scratch(f"replay-{prop}-{name}") as sc:
